@@ -20,7 +20,15 @@ Hellos == { [version |-> v, time |-> <<1, 2, 3, 4>>, random |-> Random28, sessio
              fallback_scsv |-> fb, empty_renegotiation_info_scsv |-> rn, compression_methods |-> <<0>>, extensions |-> es] :
              v \in Versions, sid \in Sids, cs \in SeqsUpTo(SuiteCodes, 2), fb \in BOOLEAN, rn \in BOOLEAN,
              es \in {s \in SeqsUpTo(GenExts, 2) : Len(s) < 2 \/ s[1] # s[2]} }
-Cases == { [abs |-> h, wire |-> ClientHello(h), ja3 |-> Ja3(ClientHello(h))] : h \in Hellos }
+Cases == { [abs |-> h, wire |-> ClientHello(h), ja3 |-> Ja3(ClientHello(h)), sweep |-> FALSE] : h \in Hellos }
+\* every extension type number up to 70 and the high ones in use, with a two-byte body, in front of ec_point_formats: the
+\* harness replays those the library knows by number only (no class of their own): they stay opaque and the next extension
+\* is found where the length field says
+SweepTypes == (0..70 \ {10, 11}) \cup {13172, 17513, 30032, 65037}
+SweepHello(t) == [version |-> 771, time |-> <<1, 2, 3, 4>>, random |-> Random28, session_id |-> <<>>, cipher_suites |-> <<47>>,
+                  fallback_scsv |-> FALSE, empty_renegotiation_info_scsv |-> FALSE, compression_methods |-> <<0>>,
+                  extensions |-> <<[type |-> t, body |-> <<1, 0>>], [type |-> 11, body |-> <<2, 0, 1>>]>>]
+Sweep == { [abs |-> SweepHello(t), wire |-> ClientHello(SweepHello(t)), ja3 |-> Ja3(ClientHello(SweepHello(t))), sweep |-> TRUE] : t \in SweepTypes }
 ASSUME PrintT(<<"CASES", Cardinality(Cases)>>)
-ASSUME ndJsonSerialize(IOEnv.OUT_FILE, SetToSeq(Cases))
+ASSUME ndJsonSerialize(IOEnv.OUT_FILE, SetToSeq(Cases) \o SetToSeq(Sweep))
 =============================================================================
